@@ -43,6 +43,8 @@ Abstracts8 == (Good /\ R.prim \in PRIMS =>
                  LET r == Prim8(R.prim, A8(1), A8(2), A8(3), A8(4)) IN
                  /\ Known(r) /\ InitVal(R.z) = Ini(r) /\ FinalVal(R.z) = Fin(r)
                  /\ (r \in {ZERO, ONE} => FiniteTimes(R.z) = {})) \/ Fail("C05", "Abstracts8")
+\* C13: the overflow marker is generated or PROPAGATED: an operand whose waveform is marked incomplete marks the result
+OvlPropagates == (Good /\ (\E i \in Ins : Overflowed(R.win[i])) => Overflowed(R.z)) \/ Fail("C13", "OvlPropagates")
 \* C13: returned switching counts = transitions of the produced waveform; overflow marker iff ...(marker is an observation)
 CountsMatch == (Good => R.nr = NRise(R.z) /\ R.nf = NFall(R.z)) \/ Fail("C13", "CountsMatch")
 =============================================================================
